@@ -198,13 +198,15 @@ def bytesLt : List UInt8 → List UInt8 → Bool
   | _ :: _, [] => false
   | a :: as, b :: bs => if a < b then true else if b < a then false else bytesLt as bs
 
-/-- `Utxos.Less` on two elements. -/
+/-- `Utxos.Less` on two elements: by value, then transaction hash, then output index. -/
 def less (a b : Utxo) : Bool :=
-  if a.value == b.value then bytesLt a.hash b.hash else a.value < b.value
+  if a.value == b.value then
+    if a.hash == b.hash then a.index < b.index else bytesLt a.hash b.hash
+  else a.value < b.value
 
 /-- `sort.Sort(sort.Reverse(utxos))`: stable insertion sort by the reversed order. `sort.Sort` is this very
-    algorithm for fewer than 12 elements and an unstable pdqsort above; on inputs whose (value, hash) pairs are
-    pairwise different every correct sort returns this list. -/
+    algorithm for fewer than 12 elements and an unstable pdqsort above; on inputs whose outpoints (hash, index) are
+    pairwise different the order is total and every correct sort returns this list. -/
 def insertDesc (u : Utxo) : List Utxo → List Utxo
   | [] => [u]
   | v :: r => if less u v then v :: insertDesc u r else u :: v :: r
